@@ -126,7 +126,7 @@ static std::vector<Step> renderTelegram(const Tg& t, Rng& r, int nakMaster, int 
   return s;
 }
 
-static const char* kMutations[] = {"flip", "drop", "insert", "truncsyn", "gap", "badcrc", "badesc", "nonmaster",
+static const char* kMutations[] = {"flip", "drop", "insert", "truncsyn", "gap", "badcrc", "badcrc", "badcrc", "badesc", "nonmaster",
                                    "selfdst", "escdst", "wrongack", "noack", "secondnak", "synmid"};
 
 static std::vector<Step> mutate(std::vector<Step> s, const Tg& t, Rng& r, std::string* name) {
@@ -228,13 +228,13 @@ static void addKernelCfg(plan::Plan* p, Rng& r, uint64_t seed, const char* famil
   p->add(buf);
 }
 
-static uint8_t addHandlerCfg(plan::Plan* p, Rng& r, bool allowReadOnly, bool allowEnhanced, int forceAnswer = -1) {
+static uint8_t addHandlerCfg(plan::Plan* p, Rng& r, bool allowReadOnly, bool allowEnhanced, int forceAnswer = -1, double enhancedP = 0.4) {
   char buf[400];
   uint8_t own = r.chance(0.5) ? 0x31 : r.pick(masters());
   bool readOnly = allowReadOnly && r.chance(0.25);
   bool answer = forceAnswer >= 0 ? forceAnswer != 0 : r.chance(0.2);
   static const int locks[] = {0, 0, 3, 5, 25};
-  bool enhanced = allowEnhanced && r.chance(0.4);
+  bool enhanced = allowEnhanced && r.chance(enhancedP);
   snprintf(buf, sizeof(buf), "cfg own=%s readonly=%d answer=%d lockcount=%d gensyn=%d acqtimeout=10 recvtimeout=25 acqretries=%d sendretries=%d extralat=%d enhanced=%d",
            hexByte(own).c_str(), readOnly ? 1 : 0, answer ? 1 : 0, locks[r.below(5)], r.chance(0.2) ? 1 : 0, static_cast<int>(r.below(4)),
            static_cast<int>(r.below(3)), r.chance(0.2) ? 10 : 0, enhanced ? 1 : 0);
@@ -517,6 +517,40 @@ static plan::Plan genC04(uint64_t seed, const std::string& tier) {
   return p;
 }
 
+// ---- family c04s: the bus thread is stalled right around the arbitration of a request, with foreign traffic going on ----
+// (late arbitration results - won or lost - then reach a handler that has moved on; mostly on the enhanced device)
+static plan::Plan genC04s(uint64_t seed, const std::string& tier) {
+  Rng r(seed);
+  plan::Plan p;
+  addKernelCfg(&p, r, seed, "c04s", true);
+  uint8_t own = addHandlerCfg(&p, r, false, true, -1, 0.7);
+  int n = tier == "thorough" ? 6 + static_cast<int>(r.below(20)) : 4 + static_cast<int>(r.below(10));
+  p.add("bus idle n=2");
+  for (int i = 0; i < n; i++) {
+    if (r.chance(0.75)) {
+      Tg t = randomTelegram(r, -1, own);
+      addScript(&p, renderTelegram(t, r, 0, 0), r.chance(0.6) ? 0 : 1 + static_cast<int>(r.below(2)), "ok");
+    } else {
+      p.add("bus idle n=" + std::to_string(1 + r.below(3)));
+    }
+  }
+  ReqGen g;
+  int nreq = 1 + static_cast<int>(r.below(4));
+  int span = n * 70 + 100;
+  addRequests(&p, r, &g, own, nreq, span, true, 100);
+  for (int i = 0; i < nreq * 4; i++) p.add(reactLine(r, -1));
+  std::vector<int> ats;
+  for (auto& l : p.lines) if (l.kind == "req") ats.push_back(static_cast<int>(l.num("at")));
+  int ns = 1 + static_cast<int>(r.below(3));
+  for (int i = 0; i < ns && !ats.empty(); i++) {
+    char buf[160];
+    snprintf(buf, sizeof(buf), "fault stall at=%d thread=bushandler ms=%d", ats[r.below(static_cast<uint32_t>(ats.size()))] + static_cast<int>(r.below(220)), 40 + static_cast<int>(r.below(280)));
+    p.add(buf);
+  }
+  if (r.chance(0.3)) p.add("cfg spurious=0.05");
+  return p;
+}
+
 // ---- family c04e: fault enumeration over the I/O call positions of a base scenario ----
 static plan::Plan genC04e(uint64_t seed, const std::string& tier) {
   (void)tier;
@@ -623,6 +657,7 @@ static plan::Plan genC15(uint64_t seed, const std::string& tier) {
 
 struct Reg {
   Reg() {
+    hz::registerFamily(hz::Family{"c04s", "l1", genC04s, "bus thread stalled around the arbitration of requests, foreign traffic, mostly enhanced device"});
     hz::registerFamily(hz::Family{"c01a", "l1", genC01a, "passive reception: well-formed, mutated and noisy traffic, no own requests"});
     hz::registerFamily(hz::Family{"c01b", "l1", genC01b, "passive reception while own requests of all kinds are active"});
     hz::registerFamily(hz::Family{"c02", "l1", genC02, "active requests against a reacting participant (random reactions)"});
